@@ -621,9 +621,42 @@ for _n in ("ne", "lt", "le", "gt", "ge"):
     METH[_n] = _cmp_meth(_n)
 
 
+@meth("numel")
+def _numel(I, t):
+    n = 1
+    for d in t.shape:
+        n = n * d
+    return n
+
+
+def _any_dim(I, t, dim, keepdim=False):
+    """any over one (symbolic) dimension: a fresh Boolean function B of the remaining indices with the assumed contract
+    B(o) <=> exists j in range. t[o with j at dim]"""
+    d = dim % len(t.shape)
+    out_shape = t.shape[:d] + t.shape[d + 1:]
+    n = to_z3(t.shape[d])
+    Bf = _fresh("any", *([z3.IntSort()] * len(out_shape) + [z3.BoolSort()]))
+    te = t.elem
+    ov = [z3.Int("o_any%d" % i) for i in range(len(out_shape))]
+    jv = z3.Int("j_any")
+
+    def el(o, j_):
+        e_ = te(*(list(o[:d]) + [j_] + list(o[d:])))
+        return z3.BoolVal(e_) if isinstance(e_, bool) else e_
+
+    rng_o = z3.And([z3.And(i >= 0, i < to_z3(m)) for i, m in zip(ov, out_shape)] or [z3.BoolVal(True)])
+    ax1 = z3.ForAll(ov, z3.Implies(z3.And(rng_o, Bf(*ov)), z3.Exists([jv], z3.And(jv >= 0, jv < n, el(ov, jv))))) if ov else z3.Implies(Bf(), z3.Exists([jv], z3.And(jv >= 0, jv < n, el(ov, jv))))
+    ax2 = z3.ForAll(ov + [jv], z3.Implies(z3.And(rng_o, jv >= 0, jv < n, el(ov, jv)), Bf(*ov)))
+    I.ex.assume(ax1)
+    I.ex.assume(ax2)
+    r = ST(out_shape, lambda *idx: Bf(*[to_z3(i) for i in idx]), "bool")
+    return _unsqueeze(I, r, d) if keepdim else r
+
+
 @meth("any")
 def _any(I, t, *a, **k):
-    """any() over a symbolic extent: a fresh Bool b with the contract  b <=> exists index. element  (assumed)"""
+    if a or "dim" in k:
+        return _any_dim(I, t, a[0] if a else k["dim"], k.get("keepdim", a[1] if len(a) > 1 else False))
     b = I.ex.fresh("bool", "any")
     idx = [z3.Int("i_any%d" % j) for j in range(len(t.shape))]
     telem = t.elem
